@@ -41,15 +41,42 @@ QFour   == GenV({<<Cap + 1, 1, 2 * Cap, Cap>>}, {3}, 1, {0})
 
 Configs ==
   CASE Family = "quick"    -> QSingle \cup QShard \cup QFour
-    [] Family = "live"     -> Gen(3, {1, Cap, Cap + 1}, {2}, TRUE, 1, {0}) \cup QShard
+    [] Family = "live"     -> GenV({<<1, Cap, Cap + 1>>, <<Cap + 1, Cap + 1, 1>>, <<Cap, Cap, 1>>}, {2, 3}, 1, {0})
+                              \cup {Raw(<<Cap + 1, 1, Cap + 1>>, Shared(3), {}, 2, Cap + 1), Raw(<<1, Cap, 1>>, Ident(3), {1}, 6, Cap)}
     [] Family = "single3"  -> Gen(3, SizeSet, {2, 3}, TRUE, 1, {0})
     [] Family = "shard3"   -> Gen(3, SizeSet \ {0}, {2, 6}, TRUE, 1, {Cap + 1, 2 * Cap})
     [] Family = "four"     -> Gen(4, {1, Cap + 1}, {3}, TRUE, 1, {0})
-                              \cup GenV({<<Cap + 1, 1, 2 * Cap, Cap>>, <<0, Cap, Cap, 1>>, <<2 * Cap, Cap + 1, Cap + 1, 1>>}, {2, 3}, 1, {0, 2 * Cap})
+                              \cup GenV({<<Cap + 1, 1, 2 * Cap, Cap>>, <<2 * Cap, Cap + 1, Cap + 1, 1>>}, {2, 3}, 1, {0, 2 * Cap})
+                              \cup GenV({<<0, Cap, Cap, 1>>}, {2, 3}, 1, {0})
 
 MCInit == \E raw \in Configs : InitFor(MkCfg(raw))
 MCSpec == MCInit /\ [][Next]_vars
 \* weak fairness of "some thread moves" is weaker than weak fairness of every thread's actions:
 \* termination under it implies termination under per-thread fairness
 MCLive == MCInit /\ [][Next]_vars /\ WF_vars(Step)
+
+(***************************************************************************)
+(* Experiment (not part of the check): the mutant "notify_all -> notify".  *)
+(* Release wakes ONE waiter, chosen arbitrarily (a superset of the FIFO    *)
+(* choice of threading.Condition).  ParallelWriterMC_notifyone.cfg shows   *)
+(* that deadlock freedom, Termination and every property formula still     *)
+(* hold - only InvNoLostWakeup (a design formula, not part of C09) fails:  *)
+(* the last release always wakes a waiter, and with nothing outstanding    *)
+(* every predicate is true.  The mutant only lowers the concurrency.       *)
+(***************************************************************************)
+ReleaseOne(t) ==
+  /\ pc[t] = "releasing"
+  /\ IF Big(t) THEN oversized' = FALSE /\ UNCHANGED inFlight
+               ELSE inFlight' = inFlight - Sz(t) /\ UNCHANGED oversized
+  /\ IF waiters = {} THEN UNCHANGED waiters ELSE \E u \in waiters : waiters' = waiters \ {u}
+  /\ pc' = [pc EXCEPT ![t] = "unlocking"]
+  /\ UNCHANGED <<cfg, task, vPool, exc, hasFile, vLocks, vOut>>
+
+StepOne == \E t \in T :
+  \/ DTake(t) \/ DFinish(t) \/ Take(t) \/ Finish(t) \/ FirstFailure(t) \/ JoinInner(t)
+  \/ ICbAcq(t) \/ OCbAcq(t) \/ CbRun(t) \/ OCbRel(t) \/ ICbRel(t) \/ FAcq(t) \/ FRel(t)
+  \/ TLock(t) \/ AcqFit(t) \/ AcqOver(t) \/ AcqBlock(t) \/ WakeFit(t) \/ WakeBlock(t)
+  \/ Write(t) \/ ReleaseOne(t) \/ TUnlock(t)
+  \/ (t = 0 /\ (JoinAll \/ Return))
+MCSpecOne == MCInit /\ [][StepOne \/ Terminated]_vars /\ WF_vars(StepOne)
 =============================================================================
